@@ -712,6 +712,9 @@ def install_faults(w, scn):
 
         acts = []
 
+        if world.now < spec.get('from_ms', 0):      # faults only after a warm-up phase (long-running scenarios)
+            return acts
+
         for p in world.procs:
             if p.state in ('done', 'new') or (victims is not None and p.name not in victims):
                 continue
